@@ -105,7 +105,7 @@ theorem newQuantity_ok {db : Db} {c : Sym} {f : Option Rat} {u : Sym} {q : Qty}
     (h : newQuantity db (.str c f) u = .ok q) :
     ∃ ci, db.catByName c = some ci ∧ checkedUnit db c u = .ok q.unit ∧ q.cat = c
       ∧ finishQuantity db ci c q.unit = .ok q := by
-  simp only [newQuantity] at h
+  simp only [newQuantity, newQuantityC, capOf] at h
   split at h
   · cases h
   · rename_i ci hci
@@ -113,7 +113,7 @@ theorem newQuantity_ok {db : Db} {c : Sym} {f : Option Rat} {u : Sym} {q : Qty}
     · cases h
     · rename_i u' hu'
       have h' := h
-      unfold finishQuantity at h
+      unfold finishQuantityC at h
       split at h
       · cases h
         exact ⟨ci, hci, hu', rfl, h'⟩
@@ -124,7 +124,18 @@ gives the same quantity** -/
 theorem newQuantity_idem {db : Db} {c : Sym} {f f' : Option Rat} {u : Sym} {q : Qty}
     (h : newQuantity db (.str c f) u = .ok q) : newQuantity db (.str q.cat f') q.unit = .ok q := by
   obtain ⟨ci, hci, hu, hc, hf⟩ := newQuantity_ok h
-  simp only [newQuantity, hc, hci, checkedUnit_of_valid (checkedUnit_valid hu), hf]
+  have hf' : finishQuantityC db ci c q.unit 0 = .ok q := hf
+  simp only [newQuantity, newQuantityC, capOf, hc, hci, checkedUnit_of_valid (checkedUnit_valid hu), hf']
+
+/-- `Quantity(category, unit)` builds a simple quantity without caption -/
+theorem newQuantity_simple {db : Db} {c : Sym} {f : Option Rat} {u : Sym} {q : Qty}
+    (h : newQuantity db (.str c f) u = .ok q) : q.comp = none ∧ q.caption = 0 := by
+  obtain ⟨ci, _, _, _, hf⟩ := newQuantity_ok h
+  simp only [finishQuantity, finishQuantityC] at hf
+  split at hf
+  · have := Except.ok.inj hf
+    rw [← this]; exact ⟨rfl, rfl⟩
+  · cases hf
 
 /-- the category of a built quantity is registered -/
 theorem qtyInfo_of_newQuantity {db : Db} {c : Sym} {f : Option Rat} {u : Sym} {q : Qty}
@@ -140,7 +151,7 @@ theorem obtainQuantity_str (db : Db) (u : Sym) (g : Option Rat) (c : Sym) (f : O
 theorem obtainDefault_of_default {db : Db} {u c : Sym} (hc : getDefaultCategory db u = .ok (some c))
     (hc0 : c ≠ 0) : obtainDefault db u = newQuantity db (.str c none) u := by
   have : (c == 0) = false := by simpa using hc0
-  simp [obtainDefault, hc, falsy, this, optAtom]
+  simp [obtainDefault, obtainDefaultC, newQuantity, hc, falsy, this, optAtom]
 
 theorem obtainQuantity_default {db : Db} {u c : Sym} (g : Option Rat)
     (hc : getDefaultCategory db u = .ok (some c)) (hc0 : c ≠ 0) :
@@ -219,13 +230,13 @@ theorem newQuantity_rows {db : Db} {c : Sym} {f : Option Rat} {u : Sym} {q : Qty
 unit)` succeeds and keeps both names -/
 theorem newQuantity_of_row {db : Db} {c u : Sym} {f : Option Rat} {ci : CatRow} {r : UnitRow}
     (hci : db.catByName c = some ci) (hr : db.unitBySym u = some r) (hqt : r.qtype = ci.qtype) :
-    newQuantity db (.str c f) u = .ok ⟨c, u⟩ := by
+    newQuantity db (.str c f) u = .ok (Qty.simple c u) := by
   have htry : db.tryInfo ci.qtype u = some r := by simp [Db.tryInfo, hr, hqt]
   have hget : ∀ a b, db.getInfo ci.qtype u a b = .ok r := by
     intro a b; simp [Db.getInfo, htry]
   have hvalid : db.categoryUnitValid c u = true := by
     simp [Db.categoryUnitValid, hci, Db.checkQuantityTypeUnit, hget]
-  simp [newQuantity, hci, checkedUnit_of_valid hvalid, finishQuantity, hget]
+  simp [newQuantity, newQuantityC, capOf, hci, checkedUnit_of_valid hvalid, finishQuantityC, hget, Qty.simple]
 
 theorem natBeq_eq_beq (a b : Nat) : Nat.beq a b = (a == b) := by
   apply Bool.eq_iff_iff.mpr
@@ -268,7 +279,7 @@ theorem defaultCatOk_spec {db : Db} {r : UnitRow} (h : r.defaultCatOk db = true)
 theorem default_quantity_of_row {db : Db} {u : Sym} {r : UnitRow} (hr : db.unitBySym u = some r)
     (h : r.defaultCatOk db = true) :
     ∃ c ci, getDefaultCategory db u = .ok (some c) ∧ c ≠ 0 ∧ db.catByName c = some ci ∧ ci.qtype = r.qtype
-      ∧ newQuantity db (.str c none) u = .ok ⟨c, u⟩ := by
+      ∧ newQuantity db (.str c none) u = .ok (Qty.simple c u) := by
   obtain ⟨c, ci, hc, hc0, hci, hq⟩ := defaultCatOk_spec h
   refine ⟨c, ci, ?_, hc0, hci, hq, newQuantity_of_row hci hr hq.symm⟩
   simp [getDefaultCategory, defaultCategoryRow, hr, hc]
@@ -293,7 +304,7 @@ theorem catByName_of_mem {db : Db} {ci : CatRow} (h : ci ∈ db.cats) : ∃ ci',
 /-- the row predicate of the category table: `Quantity(category, default_unit)` succeeds -/
 theorem defaultUnitOk_spec {db : Db} {c : Sym} {ci : CatRow} (hci : db.catByName c = some ci)
     (h : ci.defaultUnitOk db = true) :
-    newQuantity db (.str c none) ci.defaultUnit = .ok ⟨c, ci.defaultUnit⟩ := by
+    newQuantity db (.str c none) ci.defaultUnit = .ok (Qty.simple c ci.defaultUnit) := by
   unfold CatRow.defaultUnitOk at h
   rw [fastUnit_eq] at h
   split at h
@@ -399,6 +410,26 @@ theorem initNamed_category_only (db : Db) (cls : Cls) (c : Sym) (f : Option Rat)
 
 /-! ### equality -/
 
+/-- `q == q` for every quantity (simple, captioned, derived, empty) -/
+theorem pyEq_refl (q : Qty) : q.pyEq q = true := by simp [Qty.pyEq]
+
+theorem pyEq_symm (a b : Qty) : a.pyEq b = b.pyEq a := by
+  simp only [Qty.pyEq]
+  rw [@BEq.comm _ _ _ a.items b.items, @BEq.comm _ _ _ a.caption b.caption]
+
+/-- two simple quantities are `==` exactly when category, unit and caption agree -/
+theorem pyEq_simple (c u cp c' u' cp' : Sym) :
+    Qty.pyEq ⟨c, u, cp, none⟩ ⟨c', u', cp', none⟩ = (c == c' && u == u' && cp == cp') := by
+  simp only [Qty.pyEq, Qty.items]
+  apply Bool.eq_iff_iff.mpr
+  simp only [Bool.and_eq_true, beq_iff_eq, List.cons.injEq, Prod.mk.injEq, and_true]
+
+/-- **the caption is part of a quantity's identity**: two quantities that are `==` carry the same
+caption -/
+theorem pyEq_caption {a b : Qty} (h : a.pyEq b = true) : a.caption = b.caption := by
+  simp only [Qty.pyEq, Bool.and_eq_true, beq_iff_eq] at h
+  exact h.2
+
 theorem atomEq_refl (a : Atom) : atomEq a a = true := by
   cases a <;> simp [atomEq, Atom.numVal]
 
@@ -456,6 +487,6 @@ theorem arrayEq_symm (q1 : Qty) (v1 : PyVal) (q2 : Qty) (v2 : PyVal) :
     | error e2 => rfl
     | ok t2 =>
       simp only [elemsEq_symm t1 t2]
-      rw [@BEq.comm _ _ _ q1 q2, @BEq.comm _ _ _ q1.unit q2.unit]
+      rw [pyEq_symm q1 q2]
 
 end Barril.Ctor
